@@ -165,7 +165,7 @@ func c04Recover(c *core.Ctx, r *core.Reporter) {
 			case *ssa.Panic:
 				hasPanic = true
 			case *ssa.Store:
-				if f := core.FieldOf(x.Addr); f != nil && f.Name() == "Errors" {
+				if f := core.FieldOf(x.Addr); f != nil && core.N(f) == "Errors" {
 					appends = true
 				}
 			}
@@ -232,7 +232,7 @@ func c04Raw(c *core.Ctx, r *core.Reporter) {
 				if !ok {
 					return
 				}
-				if b, ok := call.Call.Value.(*ssa.Builtin); !ok || b.Name() != "append" || len(call.Call.Args) != 2 {
+				if b, ok := call.Call.Value.(*ssa.Builtin); !ok || core.N(b) != "append" || len(call.Call.Args) != 2 {
 					return
 				}
 				// varargs slice: stores into its backing array
@@ -296,7 +296,7 @@ func c04Raw(c *core.Ctx, r *core.Reporter) {
 func isNamedResult(fn *ssa.Function, al *ssa.Alloc) bool {
 	res := fn.Signature.Results()
 	for i := 0; i < res.Len(); i++ {
-		if res.At(i).Name() != "" && res.At(i).Name() == al.Comment {
+		if core.N(res.At(i)) != "" && core.N(res.At(i)) == al.Comment {
 			return true
 		}
 	}
